@@ -4,6 +4,8 @@ per-property judges decide which differences are violations of which property.""
 
 from __future__ import annotations
 
+import time
+
 import multiprocessing as mp
 import os
 import traceback
@@ -16,9 +18,19 @@ FUEL = 6000
 _drv = None
 
 
+WORKER_MEMORY = 6 * 1024 ** 3   # address-space cap of one worker process
+
+
 def _init():
     global _drv
     _drv = Driver()
+    # a parse that allocates without bound must end in MemoryError inside this worker (and be reported with its
+    # case), not take the machine down: the kernel's OOM killer removes the worker silently and its task is lost
+    try:
+        import resource
+        resource.setrlimit(resource.RLIMIT_AS, (WORKER_MEMORY, WORKER_MEMORY))
+    except Exception:  # noqa: BLE001
+        pass
 
 
 def cps(text: str) -> str:
@@ -143,7 +155,11 @@ def run_case(args):
         return {"fatal": traceback.format_exc(), "case": case}
 
 
+CASE_BUDGET = 150.0     # seconds of wall time one random / bundled grammar may take
+
+
 def _run_case(case: dict, judges: list[str], opts: dict):
+    t_case = time.time()
     import impl
     from export import ExportError, export_parser
     from pest.grammar.rule import SILENT, BuiltInRule
@@ -242,6 +258,12 @@ def _run_case(case: dict, judges: list[str], opts: dict):
                 lines["MI"] = mi
             if mg is not None:
                 lines["MG"] = mg
+            if case.get("family") in ("G2", "G3") and time.time() - t_case > CASE_BUDGET:
+                # a random / bundled grammar that needs seconds per parse (exponential backtracking): the rest of its
+                # inputs get no verdict instead of occupying a worker for hours
+                out["slow"] = out.get("slow", 0) + 1
+                out["excluded"] += 1
+                return out
             slow = False
             for mode in modes:
                 if mode in b.err:
